@@ -558,6 +558,15 @@ func dominatedByRecoverNonNil(in ssa.Instruction) bool {
 }
 
 func (r *framesRule) OnBranch(e *Engine, st *State, fc *FrameCtx, in *ssa.If, taken bool) {
+	// a publish on a nil bus is outside the property (there is no bus whose hooks, store or
+	// observer could be owed anything): the nil side of a guard on the bus parameter is
+	// not a path of the protocol
+	if x, nonNilOnTrue, ok := nilTest(in.Cond); ok && fc.parent == nil && taken != nonNilOnTrue {
+		if prm := entryParam(x); prm != nil && prm.Parent() == fc.fn && typeName(prm.Type()) == "EventBus" {
+			st.Kill()
+			return
+		}
+	}
 	// remember that this dispatch frame recovered a panic
 	if x, nonNilOnTrue, ok := nilTest(in.Cond); ok {
 		if call, ok := stripConv(x).(*ssa.Call); ok {
